@@ -64,7 +64,20 @@ func (c *Check) expiredBatchRules(prefix string, which map[string]bool) {
 			}
 		}
 		if X == nil {
-			add("persist", "the context is not persisted", pa)
+			// a context that the path removes need not be written first (write-then-delete and delete alone leave the same store)
+			removed := false
+			for _, ev := range pa.Events {
+				if ev.Kind == EvCall {
+					for _, e := range c.P.effectsOfEvent(f, ev) {
+						if e.Kind == "store" && e.Op == "Delete" && e.Family == "0x08" {
+							removed = true
+						}
+					}
+				}
+			}
+			if !removed {
+				add("persist", "the context is neither persisted nor removed", pa)
+			}
 			X = u.EB.val()
 		}
 		idx := func(pred func(*Eff) bool) int {
@@ -204,7 +217,7 @@ func (c *Check) expiredBatchRules(prefix string, which map[string]bool) {
 		}
 	}
 	texts := []struct{ k, t string }{
-		{"persist", "the context is persisted on every path"},
+		{"persist", "the context is persisted (or removed) on every path"},
 		{"dequeue", "every path removes the expiry queue entry and its pointer"},
 		{"dequeue-before-enqueue", "the expiry entry is removed before the next batch is queued"},
 		{"clean", "every path cleans the expired batch's records"},
@@ -606,6 +619,22 @@ func (c *Check) presenceLeaves(af FactSet, fam string, id *Term) []*Term {
 					}
 				}
 			}
+		case t.Op == "res" && len(t.A) == 2 && t.A[0].Op == "" && stripConv(t.A[1]).Op != "":
+			// the found-result of a getter of the family: (value, found) read under the id, found exactly when a value is stored
+			call := stripConv(t.A[1])
+			g := c.P.FuncNamed(call.Op)
+			var ri int
+			if _, err := fmt.Sscanf(t.A[0].At, "%d", &ri); err != nil || g == nil || !g.isHandWritten() || g.Body == nil || c.P.pathsBusy[g] {
+				continue
+			}
+			if gf, bi := c.foundGetter(g); gf == fam && bi == ri {
+				for _, a := range call.A {
+					if stripConv(a).Eq(stripConv(id)) {
+						out = append(out, t)
+						break
+					}
+				}
+			}
 		default:
 			g := c.P.FuncNamed(t.Op)
 			if g == nil || !g.isHandWritten() || g.Body == nil || c.P.pathsBusy[g] {
@@ -650,4 +679,66 @@ func (c *Check) fieldThroughCall(t *Term) *Term {
 		return t
 	}
 	return common
+}
+
+// foundGetter: g reads one record by a point Get and reports in a bool result whether it exists — the result is the constant
+// true exactly on the paths that have established a stored value (non-nil) and false on those that have established its
+// absence. Returns the family read and the index of that result ("" if g is not such a getter).
+func (c *Check) foundGetter(g *Func) (string, int) {
+	bi := -1
+	for i, r := range g.Res {
+		if typeName(r.Type()) == "bool" {
+			if bi >= 0 {
+				return "", -1
+			}
+			bi = i
+		}
+	}
+	if bi < 0 {
+		return "", -1
+	}
+	fam := ""
+	for _, e := range c.P.SummaryOf(g).Effs {
+		if e.Kind != "store" {
+			continue
+		}
+		if e.Op != "Get" || fam != "" {
+			return "", -1
+		}
+		fam = e.Family
+	}
+	if fam == "" {
+		return "", -1
+	}
+	nT, nF := 0, 0
+	for _, pa := range c.P.PathsOf(g) {
+		if !pa.OK() || bi >= len(pa.Ret) {
+			return "", -1
+		}
+		var got *Term
+		for _, ev := range pa.Events {
+			if ev.Kind == EvCall && strings.HasSuffix(ev.CI.name, "KVStore.Get") && ev.Result != nil {
+				got = ev.Result
+			}
+		}
+		if got == nil {
+			return "", -1
+		}
+		af := pa.AllFacts()
+		present := af.Holds(mk("==", got, atom("#nil")), false)
+		absent := af.Holds(mk("==", got, atom("#nil")), true)
+		r := stripConv(pa.Ret[bi])
+		switch {
+		case r.IsAt("#true") && present:
+			nT++
+		case (r.IsAt("#false") || r.IsAt("zero")) && absent:
+			nF++
+		default:
+			return "", -1
+		}
+	}
+	if nT == 0 || nF == 0 {
+		return "", -1
+	}
+	return fam, bi
 }
